@@ -4,12 +4,17 @@ from vcheck import Case, hx, flist, ilist, parse_vals
 
 PID = "C19"
 RULE = ("cases are generated per helper (workload, range, linspace, logspace, closest, list templates, statistics); "
-        "non-trivial = workload with remainder != 0, or closest with a tie / out-of-range target / duplicates, or a clamped "
+        "non-trivial = workload with remainder != 0 (or zero workers: exit), or closest with a tie / out-of-range target / duplicates, or a clamped "
         "Sub_List index, or a ragged/rectangular transpose with >1 row and >1 column, or range with a step that does not divide "
         "the span, or a grid with >= 3 points, or a data set with >= 3 distinct values; distinct by case text")
-LEVEL_TEXT = ("Theorems (Coq, unbounded): Workload_Distribution meets its full specification for every workers >= 1 and every tasks; "
-              "further helper theorems as listed in evidence.coverage.theorems. The Gallina model is the term that is extracted and run against "
-              "the C++ helpers on every run (bit-identical on all generated cases), and every clause of the property is also evaluated on the implementation's output.")
+LEVEL_TEXT = ("Theorems (Coq, unbounded, all listed in evidence.coverage.theorems): Workload_Distribution meets its full specification for every workers >= 1 and every tasks (zero workers exit); "
+              "Range enumerates exactly [min, min+-step, ...) with ceil(|max-min|/step) elements for step > 0 (a non-positive step makes the ascending loop diverge: model outcome None, outside the quantifier); "
+              "Lists_Equal/Flatten/List_Contains/Find_Indices/Combine/Sub_List (entries, clamping, empty cases)/Transpose (rectangular, ragged -> exit, empty -> empty) against the standard list functions; "
+              "Locate_Closest_Location returns an in-range index of a nearest element for every sorted non-empty list (ties, out-of-range targets), exits on empty/unsorted lists, and its order-only part holds for any strict total order (doubles without NaN); "
+              "Linear_Space/Log_Space count, end points, equal spacing (in the logarithm), strict monotonicity, degenerate requests -> [min] (over R); mean/variance/standard deviation/median under translation, scaling and "
+              "permutation (insertion sort is a function of the multiset), Weighted_Average with equal weights = (mean, s/sqrt N) (over R). "
+              "Not theorems: rounding behaviour of the floating-point grids and statistics (covered by correspondence, bit-identical, and by S4 with a-priori rounding slack); that std::nth_element/upper_bound/is_sorted meet their specifications. "
+              "The Gallina model is the term that is extracted and run against the C++ helpers on every run, and every clause of the property is also evaluated on the implementation's output.")
 LEVEL_NOTE = ("Coq 8.16.1 kernel; theorems over Z/nat/lists are axiom-free, theorems over R use the standard library's real-number axioms (listed in the evidence); "
               "hand-written model tied by differential correspondence (extraction with ExtrOcamlBasic only); std::nth_element/upper_bound/is_sorted modelled by their specifications")
 TOL = (1e-12, 0.0)
@@ -30,6 +35,8 @@ def generate(rng, tier):
                 cs.append(Case(f"workload {w} {t}", ("workload",)))
     for _ in range(200 if big else 40):
         cs.append(Case(f"workload {rng.randint(1, 5000)} {rng.randint(0, 200000)}", ("workload", "large")))
+    for t in [0, 1, 7, 1024, rng.randint(0, 200000)]:
+        cs.append(Case(f"workload 0 {t}", ("workload", "zero-workers")))    # guard: diagnostic and exit
     # Range
     lim = 40 if big else 12
     for a in range(-lim, lim + 1, 1 if big else 3):
@@ -66,6 +73,9 @@ def generate(rng, tier):
         elif r < 0.7: t = max(l) + rng.choice([0.0, 0.25, 3.0])
         else: t = rng.uniform(-4, 4)
         cs.append(Case(f"closest {flist(l)} {hx(t)}", ("closest", tag)))
+    for t in [0.0, -1.5, 3.0, rng.uniform(-4, 4)]:
+        cs.append(Case(f"closest 0 {hx(t)}", ("closest", "empty")))          # guard: empty list exits
+    cs.append(Case("transpose 0", ("transpose", "empty")))                  # empty list of lists -> empty list
     # list templates on ints
     def il(n): return [rng.randint(-3, 3) for _ in range(n)]
     for _ in range(3000 if big else 500):
@@ -108,8 +118,8 @@ def generate(rng, tier):
 
 def nontrivial(c, io):
     t = c.line.split(); op = t[0]
-    if io.startswith(("EXIT", "CRASH")): return op in ("closest", "transpose")
-    if op == "workload": return int(t[2]) % int(t[1]) != 0
+    if io.startswith(("EXIT", "CRASH")): return op in ("closest", "transpose", "workload")
+    if op == "workload": return int(t[1]) > 0 and int(t[2]) % int(t[1]) != 0
     if op == "range": return (int(t[2]) - int(t[1])) % int(t[3]) != 0
     if op in ("linspace", "logspace"): return int(t[3]) >= 3 and t[1] != t[2]
     if op == "closest":
@@ -130,6 +140,8 @@ def predicates(c, io):
     v = parse_vals(io)
     if op == "workload":
         w, tasks = int(t[1]), int(t[2])
+        if w == 0:
+            return [] if io.startswith("EXIT") else [("workload:zero-workers", f"Workload_Distribution(0,{tasks}) must terminate with a diagnostic, got {io[:60]}")]
         if io.startswith("EXIT"): return [("workload:exit", "Workload_Distribution terminated the process")]
         n, l = v[0], v[1:]
         if n != w + 1 or len(l) != w + 1: out.append(("workload:length", f"expected {w+1} indices, got {n}"))
@@ -169,7 +181,9 @@ def predicates(c, io):
     elif op == "closest":
         pv = parse_vals(c.line)[1:]; n = pv[0]; l = pv[1:1 + n]; tg = pv[1 + n]
         srt = all(x <= y for x, y in zip(l, l[1:]))
-        if not srt:
+        if n == 0:
+            if not io.startswith("EXIT"): out.append(("closest:empty", f"empty list was accepted, returned {io[:40]}"))
+        elif not srt:
             if not io.startswith("EXIT"): out.append(("closest:unsorted", "unsorted list was accepted"))
         elif io.startswith("EXIT"): out.append(("closest:exit", "sorted list terminated the process"))
         else:
